@@ -221,3 +221,78 @@ PROPS['C07'] = dict(
     assumptions=["aliasing is visible to the tie only through behaviour (hence forced reuse and primed pools)",
                  "Send paths: covered with the client model (sending one message never alters another)"],
 )
+
+_TCP_RULE = ("tcp suite: operation sequences (2..13 ops) on client.Client over a scripted factory and scripted connections: "
+             "Connect / Disconnect / Reconnect with dial and close failures, Handshake against 12 HELO shapes x 17 peer behaviours "
+             "(honest, auth_result=false, digest under other key / salt / nonce / hostname, replay of an earlier PONG, reflection of "
+             "the client's PING, empty / truncated / upper-cased digest, truncated, garbage, EOF, silence), Send of every message "
+             "kind incl. RawMessage and messages larger than the 2 KiB writer buffer and records with an unencodable leaf, 16 ack "
+             "behaviours incl. the matching ack split at every offset, write faults (fail after n bytes, short write) at boundary "
+             "and random offsets, SendRaw, the seven Send* helpers; with/without shared key, RequireAck, timeout; several "
+             "hostnames. Every mock call is logged. distinct = distinct (cfg, op list); non-trivial = every sequence")
+_TCP_SUITE = dict(suite='tcp', n=dict(quick=1500, thorough=40000), shards=dict(quick=1, thorough=16), trivial=r'^-$')
+_TCP_ASSUME = ["msgp.Reader presents the connection as a byte stream: results depend on the concatenation of what the peer delivers (modelled)",
+               "SHA-512 is an uninterpreted function H, instantiated in the driver by digests the harness computes with crypto/sha512",
+               "crypto/rand salts are fresh (assumed; length 16 checked on every observed PING)"]
+
+PROPS['C06'] = dict(
+    lean_modules=['FluentVerif.Props.C06'],
+    theorems=['FV.Tcp.inv_step', 'FV.Tcp.C06_inv_run', 'FV.Tcp.C06_send_needs_transport', 'FV.Tcp.C06_sendRaw_needs_transport',
+              'FV.Tcp.C06_connect_not_transport', 'FV.Tcp.C06_no_session_after', 'FV.Tcp.C06_writes', 'FV.Tcp.C14_one_open',
+              'FV.Tcp.C14_connect_active', 'FV.Tcp.C14_no_panic'],
+    suites=[_TCP_SUITE],
+    rule=_TCP_RULE,
+    explanation="C06_inv_run: for every operation sequence the event log is well ordered (no write/deadline/close on a connection "
+                "that is not open) and exactly the session's connection is open; C06_writes: the only steps that write are "
+                "Handshake (one write, the PING, on the current session) and Send/SendRaw in transport phase; "
+                "C06_send[_Raw]_needs_transport: otherwise error and no event. Correspondence: per operation, the model's result "
+                "and event list equal the real client's; oracles on the real event log (writes only inside a live authenticated "
+                "session, nothing after close).",
+    assumptions=_TCP_ASSUME,
+)
+
+PROPS['C09'] = dict(
+    lean_modules=['FluentVerif.Props.C09'],
+    theorems=['FV.Tcp.C09_ok_all', 'FV.Tcp.C09_prefix', 'FV.Tcp.C09_fault_err', 'FV.Tcp.C09_fault_cases', 'FV.Tcp.C09_unencodable',
+              'FV.Tcp.C09_ack_failure', 'FV.Tcp.C09_raw'],
+    suites=[_TCP_SUITE],
+    rule=_TCP_RULE,
+    explanation="C09_ok_all / C09_prefix / C09_fault_err / C09_unencodable / C09_ack_failure for every message, configuration and "
+                "fault: success => the whole encoding was accepted; accepted bytes are a prefix of the encoding; failed or short "
+                "write => error; unencodable => error and nothing written. Correspondence: per operation result + event list; "
+                "oracles compare the bytes the mock accepted with the model's encoding. Websocket client half: see C17.",
+    assumptions=_TCP_ASSUME,
+)
+
+PROPS['C04'] = dict(
+    lean_modules=['FluentVerif.Props.C04'],
+    theorems=['FV.Tcp.C04_success_iff', 'FV.Tcp.C04_bad_response', 'FV.Tcp.C04_deadline_armed', 'FV.Tcp.C04_chunk_on_wire',
+              'FV.Tcp.C04_sequences'],
+    suites=[_TCP_SUITE],
+    rule=_TCP_RULE,
+    explanation="C04_success_iff: with acks required, Send = ok iff every byte was accepted and the response starts with a map the "
+                "ack decoder accepts whose ack equals the chunk; C04_chunk_on_wire (via C12): that chunk is the one the "
+                "specification parser finds in the bytes on the wire; C04_deadline_armed: a deadline is set between the write "
+                "and the read. Oracle on the real run: Send=ok iff the spec-level ack of the response equals the spec-level "
+                "chunk of the written bytes; deadline event present; no read that would block for ever.",
+    assumptions=_TCP_ASSUME + ["the wall-clock bound (timeout + slack) is a runtime property: the model proves a deadline is armed; "
+                               "the mock reports any read that would block without one"],
+)
+
+PROPS['C05'] = dict(
+    lean_modules=['FluentVerif.Props.C05', 'FluentVerif.Props.C05Sym'],
+    theorems=['FV.Tcp.C05_accept_iff', 'FV.Tcp.C05_ok_iff', 'FV.Tcp.C05_ping', 'FV.Tcp.C05_server_accepts_ping',
+              'FV.Tcp.C05_other_key_rejects', 'FV.Tcp.C05_honest_pong_accepted', 'FV.Tcp.C05_validatePong_iff',
+              'FV.Tcp.C05_honest_handshake', 'FV.Tcp.C05_reflection_accepted', 'FV.Dy.derivable_synth', 'FV.Dy.C05_sym_partial',
+              'FV.Dy.C05_reflection_witness', 'FV.Dy.C05_sym_if_own_hostname_refused'],
+    suites=[_TCP_SUITE],
+    rule=_TCP_RULE,
+    explanation="Byte level: C05_accept_iff — transport phase after Handshake iff HELO decodes with options, the PING was accepted, "
+                "the PONG decodes, says auth_result=true and carries hex(H(salt||server_hostname||nonce||key)) for this salt and "
+                "nonce. Symbolic level (Dolev-Yao): C05_sym_partial — whatever a keyless peer derives from all PINGs so far and "
+                "all earlier honest PONGs, an accepted digest forces host = the client's own hostname (reflection only); "
+                "C05_reflection_witness proves the reflection is derivable, i.e. the full statement is false of the protocol as "
+                "implemented: open known finding C05-reflection. Oracle on real runs: success only with the proof condition and "
+                "only from a peer behaviour that used the key.",
+    assumptions=_TCP_ASSUME + ["concatenation ambiguity of salt||hostname||nonce||key is inherent to the protocol and outside the symbolic model"],
+)
